@@ -114,6 +114,27 @@ Fixpoint sorted_by_start (p : list ttstep) : Prop :=
   | _ => True
   end.
 
+(* the nodes that STNPlan.__init__ touches: the global ones and those of the constraints *)
+Definition init_node (cs : list pcon) (n : N) : Prop := n = start_plan \/ n = end_plan \/ In n (nodes_of cs).
+
+(* what the back conversion guarantees about the time-triggered plan [plan] it returns for the constraints [cs]
+   (s = the DeltaSTN of the STN plan, model_of s = the earliest schedule = least non-negative solution, C25):
+   sorted by start; one entry per action instance; exactly the action instances whose START occurs in a constraint;
+   start = earliest time of the START node, >= 0; duration None exactly when the END node occurs in no constraint,
+   otherwise earliest END - earliest START; every node of the STN plan read back from the plan is at its earliest time *)
+Record back_facts (cs : list pcon) (s : stn) (plan : list ttstep) : Prop := {
+  bf_sorted : sorted_by_start plan;
+  bf_nodup : NoDup (map step_of plan);
+  bf_steps : forall k, In k (map step_of plan) <-> mentioned (snode k) cs = true;
+  bf_entry : forall st k du, In (st, k, du) plan ->
+      st == model_of s (snode k) /\ 0 <= st /\
+      match du with
+      | Some d => mentioned (enode k) cs = true /\ d == model_of s (enode k) - st
+      | None => mentioned (enode k) cs = false
+      end;
+  bf_time : forall n, init_node cs n -> tt_time plan (model_of s end_plan) n == model_of s n
+}.
+
 (* the time-triggered plan [bp] has the action instances of [plan] (by position) with the same durations *)
 Definition same_instances (plan : list step) (bp : list ttstep) : Prop :=
   NoDup (map step_of bp) /\
